@@ -166,6 +166,7 @@ type zzSim struct {
 	// signed for each payment hash.
 	bobUnsignedFwd [2][]zzFwdRec
 	bobSignedFwd   map[lntypes.Hash]map[[2]uint64]bool
+	bobFailedUp    map[lntypes.Hash]bool // Bob sent update_fail upstream for a forward with this hash
 
 	initHold [3]lnwire.MilliSatoshi
 
@@ -303,6 +304,7 @@ func (s *zzSim) run() {
 	s.settleDeliveredToBob = map[lntypes.Hash]bool{}
 	s.bobIn = [2]map[uint64]lntypes.Hash{{}, {}}
 	s.bobSignedFwd = map[lntypes.Hash]map[[2]uint64]bool{}
+	s.bobFailedUp = map[lntypes.Hash]bool{}
 	s.firstFaultAt = -1
 	zzL(r, "config: %s", s.cfg)
 
@@ -614,6 +616,7 @@ func (s *zzSim) bobFails(conn int, id uint64) {
 		return
 	}
 	s.failChecks = append(s.failChecks, zzDeferred{hash: h, conn: 1 - conn, what: fmt.Sprintf("fail(id=%d)", id)})
+	s.bobFailedUp[h] = true
 	s.stat["probe_bob_fails_upstream"]++
 }
 
@@ -1366,7 +1369,92 @@ func (s *zzSim) faultArmMidCut(conn int) {
 func (s *zzSim) faultLongTime() {
 	d := []time.Duration{61 * time.Second, 125 * time.Second, 35 * time.Minute, 65 * time.Minute}[s.r.Draw(4)]
 	s.noteFault("long_time")
+	cands := s.absenceCandidates(d)
 	s.advance(d)
+	s.checkAbsence(cands, d)
+}
+
+// absenceCandidates: forwards that sit at Bob while the next peer is away.
+// Bounded liveness (C08: the two hops resolve together; a forward that cannot
+// go out must be failed back): the incoming HTLC is irrevocably committed at
+// Bob, the incoming connection is up and idle, the outgoing connection is
+// down, Bob has never signed an outgoing HTLC for the payment and none is on
+// the outgoing channel. lnd keeps such an add in the outgoing link's mailbox
+// and cancels it back once it has waited MailboxDeliveryTimeout (1 minute
+// here) with the link away - also an add the link had taken but not yet
+// signed when it stopped. If the peer now stays away for at least twice that
+// long, the sender must have its failure (or Bob must at least have sent the
+// fail upstream) by the end of the interval.
+func (s *zzSim) absenceCandidates(d time.Duration) []*zzPay {
+	if d < 2*DefaultMailboxDeliveryTimeout || s.nodes[zzB].kv.Fenced() || !s.netIdle() || s.nodes[zzB].sw == nil {
+		return nil
+	}
+	var out []*zzPay
+	for _, p := range s.pays {
+		s.mu.Lock()
+		done := p.done
+		signed := len(s.bobSignedFwd[p.hash])
+		s.mu.Unlock()
+		if done || !p.forwarded() || p.sender() == zzB || signed > 0 {
+			continue
+		}
+		in, oc := zzConnOf(p.route[0], zzB), zzConnOf(zzB, p.route[2])
+		if !s.conns[in].up || s.conns[oc].up || s.nodes[zzB].links[in] == nil {
+			continue
+		}
+		ist, err := s.nodes[zzB].fetchState(s.chans[in])
+		if err != nil {
+			continue
+		}
+		if _, err := ist.RemoteCommitChainTip(); err == nil {
+			continue // a commitment dance is still open on the incoming channel
+		}
+		if !zzHasHash(ist.LocalCommitment.Htlcs, p.hash) || !zzHasHash(ist.RemoteCommitment.Htlcs, p.hash) {
+			continue
+		}
+		ost, err := s.nodes[zzB].fetchState(s.chans[oc])
+		if err != nil {
+			continue
+		}
+		onOut := zzHasHash(ost.LocalCommitment.Htlcs, p.hash) || zzHasHash(ost.RemoteCommitment.Htlcs, p.hash)
+		if tip, err := ost.RemoteCommitChainTip(); err == nil && zzHasHash(tip.Commitment.Htlcs, p.hash) {
+			onOut = true
+		}
+		if onOut {
+			continue
+		}
+		out = append(out, p)
+	}
+	return out
+}
+
+func (s *zzSim) checkAbsence(cands []*zzPay, d time.Duration) {
+	r := s.r
+	if len(cands) == 0 || s.nodes[zzB].kv.Fenced() {
+		return
+	}
+	for _, p := range cands {
+		r.Count("absence_liveness_checks")
+		s.mu.Lock()
+		done, failedUp := p.done, s.bobFailedUp[p.hash]
+		excusable := s.midCutsExcusable
+		s.mu.Unlock()
+		if done || failedUp {
+			r.Count("probe_forward_failed_back_while_next_peer_away")
+			continue
+		}
+		bsw := s.nodes[zzB].sw
+		if excusable > 0 && bsw != nil && bsw.circuits.NumPending() > bsw.circuits.NumOpen() && zzSawFwdShutdown.Load() {
+			// the recorded finding (forward given up after CommitCircuits):
+			// that add is in no mailbox, so nothing can expire
+			r.FailOrKnown("payment-stuck", "cut-inside-write/committed-circuit-add-dropped",
+				"%s sits at Bob (incoming HTLC irrevocably committed, never offered downstream) and is not failed back although the next peer has been away for %v; Bob holds %d half-open circuit(s) whose add is in no mailbox (ForwardPackets gave up after CommitCircuits because the link was shutting down); lnd log tail:\n%s",
+				p, d, bsw.circuits.NumPending()-bsw.circuits.NumOpen(), zzLogTail())
+			continue
+		}
+		r.Fail("forward-not-failed-back", "%s sits at Bob: the incoming HTLC is irrevocably committed, Bob never signed an outgoing HTLC for it and none is on the outgoing channel, the incoming connection is up and idle - and the next peer has now been away for %v (MailboxDeliveryTimeout is %v) without the payment being failed back: nobody will resolve the incoming HTLC until that peer returns; lnd log tail:\n%s",
+			p, d, DefaultMailboxDeliveryTimeout, zzLogTail())
+	}
 }
 
 func (s *zzSim) faultFeeChange() {
